@@ -560,13 +560,25 @@ func ruleLoopCarriedError(c *core.Ctx) {
 							continue
 						}
 						// read after the loop
-						readAfter := false
+						// read after the loop: the first mention after it is not a fresh assignment
+						var first *ast.Ident
+						assigned := map[*ast.Ident]bool{}
 						ast.Inspect(d.Decl.Body, func(z ast.Node) bool {
+							if za, ok := z.(*ast.AssignStmt); ok {
+								for _, zl := range za.Lhs {
+									if zli, ok := zl.(*ast.Ident); ok {
+										assigned[zli] = true
+									}
+								}
+							}
 							if zi, ok := z.(*ast.Ident); ok && zi.Pos() > loop.End() && info.ObjectOf(zi) == obj {
-								readAfter = true
+								if first == nil || zi.Pos() < first.Pos() {
+									first = zi
+								}
 							}
 							return true
 						})
+						readAfter := first != nil && !assigned[first]
 						if readAfter {
 							c.Fail("ERRP/loop-carried-error", fmt.Sprintf("%s:%s", declKey(d), id.Name), pos(c, as), fmt.Sprintf("%s is assigned on every iteration of the loop, the loop goes on after a failure, and %s is what is looked at after the loop: a failure of an earlier iteration is overwritten by a later success (a page whose first batch failed is reported as acknowledged)", id.Name, id.Name))
 						}
